@@ -27,7 +27,7 @@ IndexOps == LET a == st.axes IN
 Ops == {[k |-> "index", items |-> it] : it \in IndexOps}
   \cup {[k |-> "squeeze"]}
   \cup {[k |-> "expand", pos |-> p] : p \in 0..Len(st.axes)}
-  \cup {[k |-> "reduce", fn |-> f, axis |-> a, keepdims |-> kd] : f \in {"sum", "mean", "max"}, a \in (0..(Len(st.axes) - 1)) \cup {-1},
+  \cup {[k |-> "reduce", fn |-> f, axis |-> a, keepdims |-> kd] : f \in {"sum", "mean", "max", "std", "min"}, a \in (0..(Len(st.axes) - 1)) \cup {-1},
                                                                  kd \in BOOLEAN}
   \cup {[k |-> "stack", pos |-> p] : p \in 0..Len(st.axes)}
   \cup {[k |-> "concat", axis |-> a] : a \in {a \in 0..(Len(st.axes) - 1) : st.axes[a + 1].kind = "ordinal"}}
